@@ -1,6 +1,7 @@
 package logs
 
 import (
+	"strings"
 	"errors"
 	"io"
 	"log"
@@ -62,4 +63,28 @@ func VerifC13_CompositeWriterFaults() {
 	for _, s := range sinks {
 		verif.Assert("every_member_closed", s.closed)
 	}
+}
+
+// VerifC13_AsynchronousFrontEnd: the front end of the ring-buffered logger
+// hands each message to its writer (the ring buffer) in ONE Write holding one
+// complete line -- a message is one entry of the ring, so it can neither be
+// split by another producer nor be dropped by halves.
+func VerifC13_AsynchronousFrontEnd() {
+	out, errs := &vFaultySink{}, &vFaultySink{}
+	l := &AsynchronousLoggers{oWriter: out, eWriter: errs, loggerSource: "src"}
+	verif.Assert("check", l.Check() == nil)
+	n := verif.Len("messages", 1, 3)
+	for i := 0; i < n; i++ {
+		if verif.Bool("toError") {
+			l.LogError("m", i, "tail")
+		} else {
+			l.Log("m", i, "tail")
+		}
+	}
+	verif.Assert("one_write_per_message", len(out.got)+len(errs.got) == n)
+	for _, s := range append(append([]string{}, out.got...), errs.got...) {
+		verif.Assert("each_write_is_one_complete_line", len(s) > 0 && s[len(s)-1] == '\n' && strings.Count(s, "\n") == 1)
+		verif.Assert("the_line_carries_source_and_message", strings.Contains(s, "[src]") && strings.Contains(s, "tail"))
+	}
+	verif.Assert("close", l.Close() == nil && out.closed && errs.closed)
 }
